@@ -40,13 +40,13 @@ Proof.
 Qed.
 
 Theorem progress s :
-  Inv s -> InvCh s -> quiescent s = true -> kctx s <> 0 -> nrefs s > 0 ->
+  Inv s -> InvCh s -> quiescent s = true -> kctx s <> 0 -> rcanc s (kctx s) = false -> nrefs s > 0 ->
   (exists g, g < length (gs s) /\ in_resolver (getg s g) = true) \/ (resolved s = true /\ delivered s).
 Proof.
-  intros [[_ [_ [_ [_ [[_ [_ [_ V5]]] [_ [_ R3]]]]]]] [_ [_ P]]] HC Hq Hk Hn.
+  intros [[_ [_ [_ [_ [[_ [_ [_ V5]]] [_ [_ R3]]]]]]] [_ [_ [P _]]]] HC Hq Hk Hrc Hn.
   destruct (resolved s) eqn:Er.
   - right. split; [reflexivity|]. destruct (V5 eq_refl) as [T1 T2]. split; [exact T1|]. split; [intros E; apply (T2 E) | exact (R3 eq_refl)].
-  - left. destruct (P Hk Hn eq_refl) as [g [G1 [_ G3]]].
+  - left. destruct (P Hk Hn eq_refl Hrc) as [g [G1 [_ G3]]].
     unfold quiescent in Hq. apply andb_true_iff in Hq. destruct Hq as [Hq _]. apply andb_true_iff in Hq. destruct Hq as [Hq _].
     apply andb_true_iff in Hq. destruct Hq as [Hq _].
     destruct (quiet_chain s HC Hq g G1 G3) as [j [Hj1 Hj2]]. exists j. split; [lia | exact Hj2].
@@ -76,7 +76,7 @@ Proof.
   intros Hk Hn. unfold s', released_section. rewrite Nat.eqb_refl. unfold start_resolve.
   destruct (shutdown_spec s) as [C1 [_ [C3 [_ [[GL _] _]]]]]. pose proof (shutdown_nrefs s) as NR. set (s1 := shutdown s) in *.
   destruct (Nat.eqb_spec (kctx s1) 0) as [E|E]; [congruence|]. destruct (Nat.eqb_spec (nrefs s1) 0) as [E2|E2]; [lia|]. cbn [orb].
-  set (x := {| gcanc := false; gwait := waitch s1; gnonce := nonce s1; gpcv := GGate0; gent := false; grel := false |}).
+  set (x := {| gcanc := rcanc s1 (kctx s1); gwait := waitch s1; gnonce := nonce s1; gpcv := GGate0; gent := false; grel := false; groot := kctx s1 |}).
   change (gs (set_rcancel (set_waitch (set_gs s1 (gs s1 ++ [x])) (Some (length (gs s1)))) (Some (length (gs s1))))) with (gs (set_gs s1 (gs s1 ++ [x]))).
   unfold getg. cbn [gs nonce set_rcancel set_waitch set_gs]. rewrite app_length, <- GL, app_nth2, Nat.sub_diag by lia. cbn. repeat split; try lia; auto.
 Qed.
@@ -185,7 +185,7 @@ Proof.
   - unfold resolver_return. destruct (nth_error (gs s) g) as [x|]; [|reflexivity]. destruct (gpcv x); reflexivity.
   - unfold store. destruct (nth_error (gs s) g) as [x|]; [|reflexivity]. destruct (gpcv x); try reflexivity.
     set (s0 := setg s g (with_gpc x GDone)). destruct (negb (Nat.eqb (nonce s0) (gnonce x))); [destruct hasrel; reflexivity|].
-    match goal with |- panicked (call_cbs ?a ?n) = _ => destruct (rest_fields a _ (rest_call_cbs a n)) as [_ [_ [_ [_ [_ [_ [_ [_ [_ [_ [_ [_ [_ [_ [_ Q]]]]]]]]]]]]]]]; rewrite Q end.
+    match goal with |- panicked (call_cbs ?a ?n) = _ => destruct (rest_fields a _ (rest_call_cbs a n)) as [_ [_ [_ [_ [_ [_ [_ [_ [_ [_ [_ [_ [_ [_ [_ [Q _]]]]]]]]]]]]]]]]; rewrite Q end.
     destruct (Nat.eqb e 0); reflexivity.
   - unfold start_consumer. now rewrite add_ref_panicked.
   - apply cons_step_panicked.
@@ -193,6 +193,7 @@ Proof.
   - unfold fire_section. destruct (nth_error (conss s) c) as [x|]; [|reflexivity]. destruct (ww_firepc x) as [[|]|]; try reflexivity.
     now rewrite remove_ref_panicked.
   - apply cb_return_panicked.
+  - destruct (Nat.eqb c 0); [reflexivity | apply (cancel_root_frame s c)].
 Qed.
 
 Theorem never_panics k es : panicked (run repaired (init k) es) = false.
